@@ -160,7 +160,7 @@ func (g *gen) floatVal() Val {
 }
 
 func (g *gen) nilVal() Val {
-	return Val{K: []string{KNil, KNilPStr, KNullStr0, KNilPValuer}[g.pick("nilkind", 4)]}
+	return Val{K: []string{KNil, KNilPStr, KNullStr0, KNilPValuer, KNilGVal}[g.pick("nilkind", 5)]}
 }
 
 // scalar of a column class (str int float bool time); any = whatever.
@@ -542,6 +542,9 @@ func (g *gen) namedTmpl(sc scope, n int, prefix string, allowStruct ...bool) *Tm
 	if len(allowStruct) > 0 && !allowStruct[0] && t.Carrier == "struct" {
 		t.Carrier = "map"
 	}
+	if t.Carrier == "struct" {
+		t.CarrierPtr = g.pct("carrierptr", 30)
+	}
 	pool := []string{"n1", "n2", "who"}
 	if t.Carrier == "struct" {
 		pool = []string{"N1", "N2", "N3"}
@@ -786,6 +789,20 @@ func (g *gen) unit(sc scope, where string) Unit {
 		perm := rapid.Permutation(cols).Draw(g.t, "mapcols")[:n]
 		sort.Slice(perm, func(i, j int) bool { return perm[i].name < perm[j].name })
 		u := Unit{Form: "map"}
+		switch g.weighted("maptype", 70, 15, 15) {
+		case 1: // map[string]string
+			u.MapType = "ss"
+			for _, c := range perm {
+				u.Keys = append(u.Keys, c.name)
+				u.Vals = append(u.Vals, Arg{V: &Val{K: KStr, S: g.str()}})
+			}
+			return u
+		case 2: // map[interface{}]interface{}: iteration order is random, so one key
+			u.MapType = "ii"
+			u.Keys = []string{perm[0].name}
+			u.Vals = []Arg{g.eqValue(classOf(perm[0].kind), sc, true)}
+			return u
+		}
 		for _, c := range perm {
 			u.Keys = append(u.Keys, c.name)
 			a := g.eqValue(classOf(c.kind), sc, false)
@@ -798,7 +815,19 @@ func (g *gen) unit(sc scope, where string) Unit {
 		return u
 	case uStruct:
 		r := g.rec(sc.table, 30, true)
-		return Unit{Form: "struct", Rec: &r, Ptr: g.pct("structptr", 50)}
+		u := Unit{Form: "struct", Rec: &r, Ptr: g.pct("structptr", 50)}
+		if g.pct("structfields", 25) {
+			cols := rapid.Permutation(columnsOf(sc.table)).Draw(g.t, "fields")
+			nf := 1 + g.pick("nfields", 3)
+			if nf > len(cols) {
+				nf = len(cols)
+			}
+			for _, col := range cols[:nf] {
+				u.Fields = append(u.Fields, col.name)
+			}
+			sort.Strings(u.Fields)
+		}
+		return u
 	case uClause:
 		c := g.clause(sc)
 		return Unit{Form: "clause", Cl: &c}
@@ -985,6 +1014,9 @@ func (g *gen) query() *Chain {
 	if c.Fin == "batches" {
 		// FindInBatches(dest, n, fn): typed destination, its own ORDER BY key and LIMIT n
 		c.FindBatch = int(g.num())
+		if g.pct("smallbatch", 35) {
+			c.FindBatch = 1 + g.pick("findbatch", 3) // fewer than the seeded rows: further batches follow
+		}
 		c.Conds = g.conds(sc, g.weighted("nconds", 10, 30, 30, 20, 10), false)
 		return c
 	}
@@ -1024,6 +1056,11 @@ func (g *gen) query() *Chain {
 			}
 			c.Sel = t
 		}
+	}
+	if sc.model && !grouped && len(c.SelCols) == 0 && c.Sel == nil && c.Fin != "pluck" && c.Fin != "count" && g.pct("queryomit", 8) {
+		c.ColMode = "omit" // the column list is spelled out without the omitted ones
+		col, _ := g.col(sc, "")
+		c.Cols = []string{col}
 	}
 	c.Conds = g.conds(sc, g.weighted("nconds", 10, 30, 30, 20, 10), false)
 	if len(c.Conds) > g.maxConds() {
@@ -1137,6 +1174,11 @@ func (g *gen) update() *Chain {
 			c.ModelID = g.num()
 		}
 	}
+	if c.ModelID == 0 && sc.model && g.pct("modelslice", 8) {
+		for i, n := 0, 1+g.pick("nmodelids", 3); i < n; i++ {
+			c.ModelIDs = append(c.ModelIDs, g.num())
+		}
+	}
 	if c.Base == "item" && g.pct("unscoped", 6) {
 		c.Unscoped = true
 	}
@@ -1145,7 +1187,7 @@ func (g *gen) update() *Chain {
 		c.AllowGlobal = true // a write without any condition is then permitted
 		lo = 0
 	}
-	if c.ModelID != 0 {
+	if c.ModelID != 0 || len(c.ModelIDs) > 0 {
 		lo = 0
 	}
 	c.Conds = g.conds(sc, lo+g.weighted("nconds", 50, 35, 15), false)
@@ -1164,6 +1206,11 @@ func (g *gen) update() *Chain {
 		r := g.rec(sc.table, 35, true)
 		c.SetRec = &r
 		c.SetPtr = g.pct("setptr", 30)
+		if c.UpKind == "updates-struct" && c.ModelID == 0 && len(c.ModelIDs) == 0 && g.pct("updateself", 25) {
+			// db.Where(…).Updates(&X{ID: n, …}): the key of the value itself is the target
+			c.UpKind, c.SetPtr = "updates-self", false
+			c.SetRec.ID = g.num()
+		}
 	}
 	if g.pct("updcols", 15) {
 		g.restrictColumns(c, sc.table)
@@ -1205,6 +1252,10 @@ func (g *gen) delete() *Chain {
 	if g.pct("inline", 22) {
 		u := g.unit(sc, "inline")
 		c.Inline = &u
+		lo = 0
+	}
+	if g.pct("delmodel", 10) {
+		c.ModelID = g.num() // Model(&X{ID: m}).Delete(&X{…}): both keys restrict the statement
 		lo = 0
 	}
 	c.Conds = g.conds(sc, lo+g.weighted("nconds", 50, 35, 15), false)
